@@ -101,10 +101,11 @@ def is_(node, *patterns: str, binds: Optional[dict] = None) -> bool:
     return any(match(node, p, binds) is not None for p in patterns)
 
 
-def fact_nodes(node: ast.AST, stop: Optional[ast.AST] = None) -> list:
-    """atomic guard facts of node as AST nodes (negations pushed in, conjunctions split)."""
+def fact_nodes(node: ast.AST, stop: Optional[ast.AST] = None, path_sensitive: bool = True) -> list:
+    """atomic guard facts of node as AST nodes (negations pushed in, conjunctions split). By default the negated conditions of preceding guard clauses (`if c: return`) count
+    as facts too; pass path_sensitive=False when the question is "which explicit branches was this written under" (e.g. exactly-these-conditions rules)."""
     out = []
-    for t, pol in _cfg.guards(node, stop):
+    for t, pol in _cfg.guards(node, stop, path_sensitive=path_sensitive):
         e = t if pol else _cfg.negate(t)
         out += _cfg.conjuncts(e)
     return out
